@@ -162,12 +162,22 @@ def cmpUnsupported : GSpec → List V → Bool
   | .nested g, its => its.any (fun x => cmpUnsupported g ((iterOf x).getD []))
   | _, _ => false
 
+/-- tuple / float bucket keys: hashable in Python, outside the modelled key domain -/
+def keyUnsupported : GSpec → List V → Bool
+  | .dict _ _ key sub, its =>
+    its.any (fun x => match key.val x with | .tuple _ | .float _ => true | _ => false) || keyUnsupported sub its
+  | .limit _ _ sub, its => keyUnsupported sub its
+  | .nested g, its => its.any (fun x => keyUnsupported g ((iterOf x).getD []))
+  | _, _ => false
+
 def run (j : Json) : Except String Json := do
   let spec ← specOfJson (← j.getObjVal? "spec")
   let runs ← (← arr (← j.getObjVal? "runs")).mapM (fun r => do (← arr r).mapM vOfJson)
   let implObs ← (← arr (← j.getObjVal? "impl")).mapM obsOfJson
   if runs.any (skipLeafBelow false spec) then
     return Json.mkObj [("skip", true), ("why", "SKIP-producing bare function under a key level")]
+  if runs.any (keyUnsupported spec) then
+    return Json.mkObj [("skip", true), ("why", "tuple used as a bucket key")]
   if runs.any (cmpUnsupported spec) then
     return Json.mkObj [("skip", true), ("why", "Max/Min over sequences")]
   let modelObs := runs.map (fun its => observe (groupEval spec its))
